@@ -712,6 +712,9 @@ impl Interp {
             }
             Pat::Seq(ps, _) => {
                 // unpacking of a nested argument: indexable containers
+                if matches!(v, V::List(_)) && ps.iter().any(|p| matches!(p, Pat::Rest(Some(_)))) {
+                    return unjudged("named rest of a list (the guide documents tuples)");
+                }
                 let items = match &v {
                     V::List(_) | V::Tuple(_) => self.iterate(&v)?,
                     V::Range(Some(_), Some(_), _) => self.iterate(&v)?,
@@ -743,15 +746,19 @@ impl Interp {
         let rest_pos = ps.iter().position(|p| matches!(p, Pat::Rest(_)));
         match rest_pos {
             None => {
+                // "If the number of elements doesn't match then an error will be thrown"
+                if items.len() != ps.len() {
+                    return err(format!("the container has a size of '{}', expected '{}'", items.len(), ps.len()));
+                }
                 for (i, p) in ps.iter().enumerate() {
-                    self.bind_pat(p, items.get(i).cloned().unwrap_or(V::Null))?;
+                    self.bind_pat(p, items[i].clone())?;
                 }
             }
             Some(rp) => {
                 let before = &ps[..rp];
                 let after = &ps[rp + 1..];
                 if items.len() < before.len() + after.len() {
-                    return unjudged("ellipsis unpack of a too-short container");
+                    return err(format!("the container has a size of '{}', expected at least '{}'", items.len(), before.len() + after.len()));
                 }
                 for (i, p) in before.iter().enumerate() {
                     self.bind_pat(p, items[i].clone())?;
@@ -1111,6 +1118,14 @@ impl Interp {
                 let (f, self_val) = match &**callee {
                     E::Dot(c, k) => {
                         let cv = self.eval(c)?;
+                        if !matches!(cv, V::Map(_)) && args.is_empty() {
+                            match k.as_str() {
+                                "to_tuple" => return Ok(vtuple(self.iterate(&cv)?)),
+                                "to_list" => return Ok(vlist(self.iterate(&cv)?)),
+                                "count" => return Ok(V::Int(self.iterate(&cv)?.len() as i64)),
+                                _ => {}
+                            }
+                        }
                         let f = self.access(&cv, k)?;
                         (f, Some(cv))
                     }
@@ -1359,7 +1374,18 @@ impl Interp {
             E::MultiAssign(ts, v) => {
                 let val = self.eval(v)?;
                 let items = match &val {
-                    V::List(_) | V::Tuple(_) | V::Range(Some(_), Some(_), _) | V::Gen(_) => self.iterate(&val)?,
+                    V::Gen(g) => {
+                        // only as many elements as there are targets are pulled
+                        let mut out = vec![];
+                        for _ in 0..ts.len() {
+                            match crate::modelgen::gen_next(self, g)? {
+                                Some(v) => out.push(v),
+                                None => break,
+                            }
+                        }
+                        out
+                    }
+                    V::List(_) | V::Tuple(_) | V::Range(Some(_), Some(_), _) => self.iterate(&val)?,
                     V::Str(_) | V::Map(_) | V::Range(..) => return unjudged("multi-assign from string/map/unbounded range"),
                     other => vec![other.clone()],
                 };
